@@ -941,6 +941,9 @@ fn attributes(r: &mut Rd, cx: &Ctx, level: Level, sink: &mut AttrSink, depth: u8
 			(Level::Code, "StackMapTable") => {
 				at_most_once(r)?;
 				if let AttrSink::Code(c, l) = sink {
+					if !c.frames.is_empty() {
+						return r.err("StackMap and StackMapTable in one Code attribute");
+					}
 					let n = r.u16(Role::Count)?;
 					let mut offset: i64 = -1;
 					for _ in 0..n {
@@ -985,6 +988,41 @@ fn attributes(r: &mut Rd, cx: &Ctx, level: Level, sink: &mut AttrSink, depth: u8
 							return Err(ParseError { at, msg: "stack map frame at the end of the code".into() });
 						}
 						c.frames.push((idx, frame));
+					}
+				}
+			},
+			// the CLDC `StackMap` attribute (class files of Java ME / javac -target cldc1.0; not in the JVMS, but the reader
+			// under test gives it the meaning its specification defines): explicit offsets, every frame a full frame
+			(Level::Code, "StackMap") => {
+				at_most_once(r)?;
+				if let AttrSink::Code(c, l) = sink {
+					if !c.frames.is_empty() {
+						return r.err("StackMap and StackMapTable in one Code attribute");
+					}
+					let n = r.u16(Role::Count)?;
+					let mut last: i64 = -1;
+					for _ in 0..n {
+						let at = r.pos;
+						let offset = r.u16(Role::Pc)? as i64;
+						if offset <= last {
+							return Err(ParseError { at, msg: "StackMap frames not in ascending order of offset".into() });
+						}
+						last = offset;
+						let nl = r.u16(Role::Count)?;
+						let mut locals = Vec::new();
+						for _ in 0..nl {
+							locals.push(vtype(r, cx, l)?);
+						}
+						let ns = r.u16(Role::Count)?;
+						let mut stack = Vec::new();
+						for _ in 0..ns {
+							stack.push(vtype(r, cx, l)?);
+						}
+						let idx = l.idx(offset, at, "stack map frame offset")?;
+						if idx as usize >= c.insns.len() {
+							return Err(ParseError { at, msg: "stack map frame at the end of the code".into() });
+						}
+						c.frames.push((idx, SFrame::Full { locals, stack }));
 					}
 				}
 			},
